@@ -126,7 +126,7 @@ func run(r *core.R) {
 		w.gcIdleSeenAt = w.now()
 	}
 	w.s.TimeJump = func() time.Duration {
-		if w.quiesced || !src.Chance(w.pJump, "t_jump") {
+		if w.quiesced || w.runtimeBusy() || !src.Chance(w.pJump, "t_jump") {
 			return 0
 		}
 		r.Fault("clock_jump")
@@ -159,6 +159,18 @@ func run(r *core.R) {
 	close(w.gcStop)
 	close(w.checkKick)
 	r.SimTime(w.now())
+}
+
+// runtimeBusy: some kubelet has a CNI call in flight or a status report outstanding.  The clock does not jump then:
+// a CNI ADD plus the report of its address completes within the drawn status lag (engine assumption: well inside
+// the grace period - that is what the grace period is for).
+func (w *world) runtimeBusy() bool {
+	for _, n := range w.nodes {
+		if n.kl.busy || len(n.kl.q) > 0 {
+			return true
+		}
+	}
+	return false
 }
 
 func isStoreOp(op string) bool {
